@@ -30,9 +30,11 @@ Scalars == IF Tier = "quick"
            ELSE <<NullV, BoolV(TRUE), BoolV(FALSE), IntV(0), IntV(1), IntV(2), IntV(-1), FltV(3, 1), FltV(2, 0), FltV(5, 1), FltV(0, 0),
                   StrV(A), StrV(B), StrV(<<>>), StrV(<<97, 98>>)>>
 Conts == IF Tier = "quick"
-         THEN <<ArrV(<<>>), ArrV(<<IntV(1), StrV(A)>>), ObjV(<<>>, <<>>), ObjV(<<A>>, <<IntV(1)>>)>>
+         \* (a container inside a container: as a struct / fixed-size array the outer value is comparable in Go, its member is not)
+         THEN <<ArrV(<<>>), ArrV(<<IntV(1), StrV(A)>>), ObjV(<<>>, <<>>), ObjV(<<A>>, <<IntV(1)>>), ObjV(<<A>>, <<ArrV(<<IntV(1)>>)>>)>>
          ELSE <<ArrV(<<>>), ArrV(<<IntV(1)>>), ArrV(<<IntV(1), StrV(A)>>), ArrV(<<FltV(2, 0), NullV, ArrV(<<>>)>>),
-                ObjV(<<>>, <<>>), ObjV(<<A>>, <<IntV(1)>>), ObjV(<<A, B>>, <<IntV(1), StrV(A)>>)>>
+                ObjV(<<>>, <<>>), ObjV(<<A>>, <<IntV(1)>>), ObjV(<<A, B>>, <<IntV(1), StrV(A)>>), ObjV(<<A>>, <<ArrV(<<IntV(1)>>)>>),
+                ObjV(<<A, B>>, <<ObjV(<<A>>, <<IntV(1)>>), ArrV(<<>>)>>)>>
 Data == Scalars \o Conts                      \* what a data member can be
 \* (the text form has no empty list constant: "[]" is a parse error; C14 deals with that)
 Lists == <<ArrV(<<IntV(2)>>), ArrV(<<IntV(1), StrV(A), FltV(3, 1), BoolV(TRUE), NullV>>)>>
@@ -98,7 +100,25 @@ UnCases == [n \in 1..NL |-> MkUn("!", LOps[n])]
 \* a bare operand as the whole script: constants and paths (truth value of a non-boolean is open, see Script!Verdict)
 BareCases == [n \in 1..NL |-> [ast |-> LOps[n].e, elem |-> ElemOf(LOps[n], Opd(Const(NullV), None, None, None)),
                                root |-> Members(None, LOps[n].rk)]]
-Cases == BinCases \o UnCases \o BareCases
+\* long multi-valued operands, given by description (the harness builds the list): n members equal to fill except member
+\* "at"; the script is true only through that member (or, with two lists, through one pair): every combination has to be tried
+Big(n, at, v, fill) == [t |-> "biglist", n |-> n, at |-> at, v |-> v, fill |-> fill]
+BigSizes == <<33, 40, 1025, 1500>>
+BigOps == <<"==", "!=", "<", ">", "<=", ">=", "in">>
+BigOne == [n \in 1..(Len(BigSizes) * 2 * Len(BigOps)) |->
+             LET sz == BigSizes[((n - 1) \div (2 * Len(BigOps))) + 1] first == (((n - 1) \div Len(BigOps)) % 2) = 0 o == BigOps[((n - 1) % Len(BigOps)) + 1]
+                 \* fill 5 everywhere, the one member that makes the comparison with 5 (or the list [7]) true
+                 v == CASE o \in {"==", "in"} -> IntV(7) [] o = "!=" -> IntV(7) [] o \in {"<", "<="} -> IntV(3) [] OTHER -> IntV(9)
+                 c == CASE o = "==" -> Const(IntV(7)) [] o = "in" -> Const(ArrV(<<IntV(7)>>)) [] o = "!=" -> Const(IntV(5))
+                        [] o \in {"<", ">"} -> Const(IntV(5)) [] o = "<=" -> Const(IntV(4)) [] OTHER -> Const(IntV(6)) IN
+             [ast |-> Bin(o, Path("@", <<Child(Kk), Wild>>), c), root |-> Members(None, None),
+              elem |-> ObjV(<<Kk>>, <<Big(sz, IF first THEN 1 ELSE sz, v, IntV(5))>>)]]
+\* both operands multi-valued, only one pair matches (fills 5 and 6, the shared member 7): 33 x 33 and 40 x 40 combinations
+BigTwo == [n \in 1..8 |->
+             LET sz == IF n <= 4 THEN 33 ELSE 40 lf == n % 2 = 0 rf == (n \div 2) % 2 = 0 IN
+             [ast |-> Bin("==", Path("@", <<Child(Kk), Wild>>), Path("@", <<Child(Kj), Wild>>)), root |-> Members(None, None),
+              elem |-> ObjV(<<Kj, Kk>>, <<Big(sz, IF rf THEN 1 ELSE sz, IntV(7), IntV(6)), Big(sz, IF lf THEN 1 ELSE sz, IntV(7), IntV(5))>>)]]
+Cases == BinCases \o UnCases \o BareCases \o BigOne \o BigTwo
 
 VARIABLE done
 Init == done = FALSE
